@@ -3,7 +3,7 @@
    SigSafe.v, SigConn.v; Print Assumptions follows each. *)
 From Coq Require Import List NArith Bool.
 Import ListNotations.
-Require Import Util SigCore SigLemmas SigInv SigSafe SigSpec SigConn.
+Require Import Util SigCore SigLemmas SigInv SigSafe SigSpec SigConn SigQuiesce SigWatch.
 Local Open Scope N_scope.
 
 Theorem C17_move_transfers_without_disconnecting : S_scoped_move_no_disconnect.
@@ -29,3 +29,10 @@ Print Assumptions C17_assignment_disconnects_old.
 Theorem C17_plain_connection_stays_valid_handle : S_conn_never_dangles.
 Proof. exact conn_never_dangles. Qed.
 Print Assumptions C17_plain_connection_stays_valid_handle.
+
+(* on every reachable state the side condition of the previous theorem is automatic: a handle
+   registered at an element points at it (watch lists are exact), so assignment from any connection
+   that does not itself refer to the held slot disconnects exactly the old slot *)
+Theorem C17_assignment_disconnects_old_reachable : S_scoped_assign_disconnects_old_reachable.
+Proof. exact scoped_assign_disconnects_old_reachable. Qed.
+Print Assumptions C17_assignment_disconnects_old_reachable.
